@@ -121,9 +121,13 @@ class AttestationsDB(Database):
         :param current_version: the version of the script to return.
         """
         if current_version == 1:
-            return (f"ALTER TABLE {self.db_name}\n"
+            # One transaction that also bumps the stored version: an interrupted upgrade is not repeated half-way.
+            return ("BEGIN;\n"
+                    f"ALTER TABLE {self.db_name}\n"
                     "ADD id_format TINYTEXT;\n\n"
-                    f"UPDATE {self.db_name} SET id_format='id_metadata';\n")
+                    f"UPDATE {self.db_name} SET id_format='id_metadata';\n"
+                    "UPDATE option SET value='2' WHERE key='database_version';\n"
+                    "COMMIT;\n")
         return None
 
     def check_database(self, database_version: bytes) -> int:
